@@ -107,11 +107,44 @@ def exact_gimbal_rots():
     return out
 
 
+def stamps_for(r, n):
+    """timestamps are not looked at by project(): increasing, unsorted, with duplicates, or none"""
+    how = r.choice(["none", "none", "increasing", "increasing", "unsorted", "duplicates"])
+    if how == "none":
+        return None
+    st = [float(i) * 0.1 + 1.5e9 for i in range(n)]
+    if how == "unsorted":
+        r.shuffle(st)
+    elif how == "duplicates":
+        st = [st[r.randrange(n)] for _ in range(n)]
+    return st
+
+
 def finish_case(r, c):
     n = len(c["poses"])
     c["mode"] = r.choice(["se3", "se3", "quat"])
     c["reads"] = r.choice(READS)
-    c["stamps"] = [float(i) * 0.1 + 1.5e9 for i in range(n)] if r.random() < 0.5 else None
+    c["stamps"] = stamps_for(r, n)
+    if r.random() < 0.35:
+        c["flavour"] = r.choice(["fortran", "stack", "strided", "aliased"] if c["mode"] == "se3" else ["list", "readonly", "strided"])
+        if c["flavour"] == "aliased":
+            # repeat some poses: slot i shares the matrix object of slot alias[i]
+            m = n + r.randint(1, 3)
+            alias = list(range(n)) + [r.randrange(n) for _ in range(m - n)]
+            order = list(range(m)); r.shuffle(order)
+            first = {}
+            poses, al = [], []
+            for new_i, old in enumerate(order):
+                src = alias[old]
+                first.setdefault(src, new_i)
+                poses.append(c["poses"][src]); al.append(first[src])
+            c["poses"], c["alias"] = poses, al
+            for key in ("deg", "how"):
+                if c.get(key) is not None:
+                    c[key] = [c[key][alias[old]] for old in order]
+            c["stamps"] = stamps_for(r, m)
+    if r.random() < 0.1:
+        c["bad_plane_first"] = True
     c["calls"] = r.choice([[c["plane"]], [c["plane"], c["plane"]], [c["plane"], r.choice(list(NULL))],
                            [c["plane"], r.choice(list(NULL)), r.choice(list(NULL))]])
     return c
@@ -135,6 +168,10 @@ def gen_cases(ctx):
                     stamps = [0.0, 0.5] if r.random() < 0.5 else None
                     yield {"kind": "general", "plane": p1, "deg": None, "poses": [pose(quat_rot(r), tvec(r)) for _ in range(2)],
                            "mode": mode, "reads": reads, "stamps": stamps, "calls": [p1, p2] + ([r.choice(PLANES)] if r.random() < 0.3 else [])}
+    # structured sizes (L5)
+    for n in (1, 2, 3, 4, 7, 8, 9, 15, 16, 17, 31, 32, 33):
+        plane = r.choice(PLANES)
+        yield finish_case(r, {"kind": "general", "plane": plane, "deg": None, "poses": [pose(quat_rot(r), tvec(r)) for _ in range(n)]})
     # exact gimbal-lock attitudes (R00 == R10 == 0 exactly), every plane, both storage modes
     for plane in PLANES:
         for mode in ("se3", "quat"):
@@ -222,14 +259,46 @@ def build(case):
     """a fresh object by the construction route of the case; `reads` = views read before the first project()"""
     from evo.core.trajectory import PosePath3D, PoseTrajectory3D
     poses = [np.array(p, dtype=float) for p in case["poses"]]
+    fl = case.get("flavour")
     kw = {}
+    stamps = None if case["stamps"] is None else np.array(case["stamps"])
     if case["mode"] == "se3":
-        kw["poses_se3"] = [p.copy() for p in poses]
+        if fl == "fortran":
+            lst = [np.asfortranarray(p.copy()) for p in poses]
+        elif fl == "stack":                       # views of one (n, 4, 4) base array (how stacked pose files are usually split)
+            lst = list(np.array(poses))
+        elif fl == "strided":                     # non-contiguous views into a larger array
+            big = np.full((len(poses), 8, 9), 7.0)
+            big[:, 1::2, 1::2] = np.array(poses)
+            lst = [big[i, 1::2, 1::2] for i in range(len(poses))]
+        elif fl == "aliased":                     # one matrix object in several slots: slot i holds the object of slot alias[i]
+            objs = {}
+            lst = []
+            for i, j in enumerate(case["alias"]):
+                if j not in objs:
+                    objs[j] = poses[j].copy()
+                lst.append(objs[j])
+        else:
+            lst = [p.copy() for p in poses]
+        kw["poses_se3"] = lst
     else:
-        kw["positions_xyz"] = np.array([p[:3, 3] for p in poses])
-        kw["orientations_quat_wxyz"] = np.array([quat_of(p[:3, :3]) for p in poses])
+        xyz = np.array([p[:3, 3] for p in poses])
+        quat = np.array([quat_of(p[:3, :3]) for p in poses])
+        if fl == "list":
+            xyz, quat = xyz.tolist(), quat.tolist()
+            stamps = None if stamps is None else stamps.tolist()
+        elif fl == "readonly":
+            xyz.setflags(write=False)
+            quat.setflags(write=False)
+            if stamps is not None:
+                stamps.setflags(write=False)
+        elif fl == "strided":
+            bx = np.full((len(poses), 6), 7.0); bx[:, ::2] = xyz; xyz = bx[:, ::2]
+            bq = np.full((len(poses), 8), 7.0); bq[:, ::2] = quat; quat = bq[:, ::2]
+        kw["positions_xyz"] = xyz
+        kw["orientations_quat_wxyz"] = quat
     if case["stamps"] is not None:
-        tr = PoseTrajectory3D(timestamps=np.array(case["stamps"]), **kw)
+        tr = PoseTrajectory3D(timestamps=stamps, **kw)
     else:
         tr = PosePath3D(**kw)
     return tr
@@ -250,6 +319,10 @@ def run_impl_(case):
     with warnings.catch_warnings():
         warnings.simplefilter("ignore")
         out = {"before": snapshot(build(case)), "calls": []}          # twin: the object under test is not read
+        try:
+            out["evo_check_before"] = bool(build(case).check()[0])
+        except Exception as e:
+            out["evo_check_before"] = f"{type(e).__name__}: {e}"
         # twin projected once: the state after the first projection
         b = build(case)
         read_views(b, reads)
@@ -262,6 +335,12 @@ def run_impl_(case):
         # object under test: the whole call history, no view is read between the calls
         tr = build(case)
         read_views(tr, reads)
+        if case.get("bad_plane_first"):
+            try:
+                tr.project(case["calls"][0])         # the plane's *string*, not a Plane: must be refused as unknown
+                out["bad_plane"] = "accepted"
+            except TrajectoryException:
+                out["bad_plane"] = "TrajectoryException"
         for pl in case["calls"]:
             try:
                 tr.project(P[pl])
@@ -308,6 +387,9 @@ def judge(ctx, case, impl, outs):
     plane = case["plane"]
     k = NULL[plane]
     ctx.count("dist", f"{case['kind']}:{plane}:{case['mode']}")
+    if case.get("flavour"):
+        ctx.count("dist", "flavour:" + case["flavour"])
+    ctx.count("dist", "poses=%d" % len(case["poses"]))
     ctx.count("dist", f"route:{case['mode']}{'+stamps' if case['stamps'] is not None else ''}:reads={case.get('reads', 'none')}:calls={len(case['calls'])}")
     if "crash" in impl:
         ctx.fail(case, "no-unexpected-exception", impl["crash"], {"plane": plane})
@@ -442,8 +524,10 @@ def oracle(ctx, case, impl):
               [2 * (x * z - y * w), 2 * (y * z + x * w), 1 - 2 * (x * x + y * y)]]
         if max(abs(Rq[a][b] - pa[a][b]) for a in range(3) for b in range(3)) > 1e-12:
             ctx.fail(case, "views-consistent", f"pose {i}: orientations_quat_wxyz does not describe the projected rotation", tags)
-    if impl["evo_check"] is False:
+    if impl["evo_check"] is False and impl.get("evo_check_before", True) is True:
         ctx.fail(case, "valid-rigid-pose", "evo's own check() rejects the projected trajectory", base)
+    if impl.get("bad_plane", "TrajectoryException") != "TrajectoryException":
+        ctx.fail(case, "unknown-plane-refused", f"project({case['calls'][0]!r}) (a string, not a Plane) was {impl['bad_plane']}", base)
     # one-shot
     if impl["calls"][0] != "OK":
         ctx.fail(case, "first-projection-carried-out", "the first project() was refused", base)
@@ -454,11 +538,31 @@ def oracle(ctx, case, impl):
 
 
 # ----------------------------------------------------------------------------- plumbing
+def history_independent(ctx, cases, impls):
+    """L2: the same history right after a gimbal-lock / refused-call case must give the result it gave before"""
+    import json
+    deg = {"kind": "gimbal", "plane": "xy", "deg": None, "poses": [pose(R, [1.0, 2.0, 3.0]) for R in exact_gimbal_rots()[:2]],
+           "mode": "se3", "reads": "none", "stamps": None, "calls": ["xy", "yz"]}
+    step = max(1, len(cases) // 60)
+    for i in range(0, len(cases), step):
+        run_impl(deg)
+        again = run_impl(cases[i])
+        if json.dumps(again, sort_keys=True) != json.dumps(impls[i], sort_keys=True):
+            ctx.fail(cases[i], "result-independent-of-call-history", "the same history gives a different result after other calls in the same process",
+                     {"plane": cases[i]["plane"]})
+        ctx.count("branch", "repeated after a gimbal-lock case")
+
+
 def evaluate(ctx, cases):
     impls = [run_impl(c) for c in cases]
+    if len(cases) > 50:
+        history_independent(ctx, cases, impls)
     lines, spans = [], []
     for c, im in zip(cases, impls):
-        ls = model_lines(c, im)
+        try:
+            ls = model_lines(c, im)
+        except (ValueError, OverflowError):      # non-finite input pose computed by evo (quaternion route): reported by the oracle
+            ls = []
         spans.append((len(lines), len(ls)))
         lines += ls
     outs = core.run_driver(lines, prop="C14") if lines else []
@@ -471,6 +575,8 @@ def shrink(case):
     if n > 1:
         for i in range(n):
             c = dict(case)
+            if c.get("flavour") == "aliased":
+                continue
             c["poses"] = case["poses"][:i] + case["poses"][i + 1:]
             for key in ("deg", "stamps", "how"):
                 if c.get(key) is not None:
@@ -482,6 +588,8 @@ def shrink(case):
         c = dict(case); c["stamps"] = None; yield c
     if case["mode"] == "quat":
         c = dict(case); c["mode"] = "se3"; yield c
+    if case.get("flavour"):
+        c = {k: v for k, v in case.items() if k not in ("flavour", "alias")}; yield c
     if case.get("reads", "none") != "none":
         c = dict(case); c["reads"] = "none"; yield c
     for i, p in enumerate(case["poses"]):
